@@ -116,7 +116,7 @@ def main():
     # the library headers - a new one is a new way for independent threads / documents to interact (C17, C13)
     stat = []
     rx_static = re.compile(r"^\s*(?:static|thread_local)\s+(?!const\b|constexpr\b|inline\b|sonic_\w+|SONIC_\w+|__attribute__)"
-                           r"([\w:<>,\*&\s]+?)\s+(\w+)\s*(?:\{[^}]*\}|=[^;]*|\[[^\]]*\])?\s*;")
+                           r"([\w:<>,\*&\s]+?)\s+(\w+)\s*(?:\{[^}]*\}|=[^;]*|\[[^\]]*\]|\(\s*(?:[\d\"'{][^)]*)?\))?\s*;")
     for root, _dirs, files in sorted(os.walk(inc)):
         for fn in sorted(files):
             if not fn.endswith(".h"):
